@@ -78,6 +78,15 @@ CLAIMED = {
          "Static decision of the structural necessary conditions of C19: invalid sizes produce errors not panics (all div/mod/make/slice obligations discharged), the encoder terminates, the first len(data)/fragmentSize rows are the uncoded fragments in order, every successful return has at least M+redundancy rows, and the parity row selector can reach every data row. It does NOT decide recoverability of the data from any M-subset of rows (linear algebra over GF(2) on runtime matrices; declined in DESIGN.md).",
          "Trusts go/ssa, internal/guards.",
          "DESIGN.md §3 C19"),
+ "C16": ("flow analysis on go/ssa (engine E5: symbolic terms with reaching-store memory walk, boolean guards compared by truth table, task pipelines as ordered function lists) for key/label/flag provenance, def-use over the task lists, validation order, id mirroring and result codes; bit-precise abstract interpretation of the key-derivation blocks (AES uninterpreted); effect summaries for handler statelessness",
+         "Static decision of the structural clauses of C16: which root key, flags and nonces reach each derivation, which KEK/label wraps which key, that the join MIC is validated before keys are derived and ErrInvalidMIC/ErrDevEUINotFound map to MICFailed/UnknownDevEUI, that every context field a task reads was written earlier, that answers mirror the request ids, that the 16-byte derivation blocks equal the specification for all inputs, and that the handler writes no shared state. It does not execute the HTTP handler; agreement of the produced join-accept with a device's derivation follows from these clauses plus C04, not from an end-to-end run.",
+         "Trusts go/ssa, internal/flow (no aliasing between distinct SSA base objects; callees do not retain pointers to caller locals), internal/absint, internal/effects. Known finding: rejoin OptNeg source.",
+         "DESIGN.md §3 C16"),
+
+ "C17": ("flow analysis on go/ssa (engine E5) of the backend JSON/text codecs: sibling agreement of Marshal*/Unmarshal* (hex, time layout, scaling constants), rounding discipline of float to integer conversions, struct-tag rules over every payload struct via go/types, key-envelope wrap/unwrap guards by truth table",
+         "Static decision of the structural necessary conditions of C17's round-trip statement: no field is silently dropped by encoding/json, every custom codec pair uses one representation and one scaling constant both ways, decoding rounds instead of truncating, NewKeyEnvelope/Unwrap use the same cipher construction under complementary guards. It does not run encoding/json; equality of decode(encode(v)) for all values follows from these clauses and the documented behaviour of encoding/json, which is trusted.",
+         "Trusts go/ssa, go/types struct tags, internal/flow, the documented behaviour of encoding/json, encoding/hex, strconv, time.",
+         "DESIGN.md §3 C17"),
 }
 
 NOT_APPLICABLE = {
